@@ -502,10 +502,13 @@ def nearestDefault (cs : List ClsInfo) (mro : List Cls) (a : Name) : Val :=
 def instInfo (env : Env) (c : Cls) : Option ClsInfo := firstSpecCls env.classes (mroOf env.classes c)
 def instMeta (env : Env) (c : Cls) : Option Meta := (instInfo env c).bind (·.«meta»)
 
-/-- Class `k` is decorated and its body declares `a` as a managed attribute (annotation, or overflow attribute). -/
+/-- Class `k` is decorated and its body declares `a` as a managed attribute: an annotation, an
+`Attr(...)`/`field(...)` object (which takes ownership even without annotation), or the overflow attribute. -/
 def declares (cs : List ClsInfo) (k : Cls) (a : Name) : Bool :=
   match findCls cs k with
-  | some i => i.cdef.spec && (i.cdef.decls.any (fun d => d.name == a && d.ann) || i.cdef.ovfArg == some (some a))
+  | some i => i.cdef.spec && (i.cdef.decls.any (fun d => d.name == a &&
+        (d.ann || (match d.body with | some (.attrObj _ _ _) => true | _ => false))) ||
+      i.cdef.ovfArg == some (some a))
   | none => false
 
 /-- When the default lookup reaches the owner, the Attr carries what the owner's body declares, or (for an
